@@ -116,7 +116,7 @@ func init() {
 	}
 	Register(&Scenario{
 		Prop: "C01", Name: "seq-history",
-		Rule: "generated sequential histories (bucket/put/copy/append/multipart/delete/versioning/tagging/transition ops, unique bodies of sizes 0..70000 B and multi-MiB in thorough) on a swarm-chosen part-store stack with the real GC/outbox/heal workers on the simulated clock; every op compared with the reference model, full-state checkpoints every 7 ops and after the GC windows; non-trivial = at least one acknowledged mutation",
+		Rule: "generated sequential histories (bucket/put/copy/append/multipart/delete/versioning/tagging/transition ops, unique bodies of sizes 0..70000 B, multi-MiB in thorough, and in 1 of 20 runs (thorough 1 of 6) one or two bodies around 8 and 16 MiB, the chunk size of the outbox and SQL part stores) on a swarm-chosen part-store stack with the real GC/outbox/heal workers on the simulated clock; every op compared with the reference model, full-state checkpoints every 7 ops and after the GC windows; non-trivial = at least one acknowledged mutation",
 		Real: realStack,
 		Run: func(rc *RunCtx) (*Violation, error) {
 			g := rc.Gen()
@@ -124,6 +124,14 @@ func init() {
 			cfg := DriverCfg{Buckets: b, Keys: k, WBucket: 2, WVersioning: 1, WPut: 10, WGet: 4, WDelete: 4, WDeleteVersion: 2, WMultiDelete: 1, WCopy: 4, WAppend: 3, WMultipart: 8, WTagging: 1, WTransition: 2, WList: 2,
 				CondWrites: true, Metadata: true, BigBodies: rc.Thorough(),
 				Oracles: map[string]bool{OContent: true, OErrKind: true}}
+			// now and then one body (thorough: two) around the 8 MiB chunk size of the part outbox / SQL part store
+			if rc.Thorough() {
+				if g.Chance(1, 6) {
+					cfg.HugeBodies = 2
+				}
+			} else if g.Chance(1, 20) {
+				cfg.HugeBodies = 1
+			}
 			n := 25
 			if rc.Thorough() {
 				n = 60
